@@ -362,3 +362,132 @@ Proof.
       * destruct H as (H1 & H2). cbn in H2. split; [exact H1|lia].
       * unfold berr_ok; cbn. try rewrite Ee. discriminate.
 Qed.
+
+(* ---------------------------------------------------------------- byte values *)
+Definition bytes_ok (l : list N) : Prop := Forall (fun b => b < 256) l.
+
+(* everything the bufio layer holds or will still receive is a byte *)
+Definition buf_bytes (b : bufrd) : Prop := bytes_ok (bbuf b) /\ Forall bytes_ok (chunks b).
+
+Lemma bytes_ok_app : forall a b, bytes_ok a -> bytes_ok b -> bytes_ok (a ++ b).
+Proof. intros a b Ha Hb. unfold bytes_ok. apply Forall_app. split; assumption. Qed.
+
+Lemma bytes_ok_firstn : forall n l, bytes_ok l -> bytes_ok (firstn n l).
+Proof.
+  induction n as [|k IH]; intros l H; cbn [firstn]; [constructor|].
+  destruct l as [|x r]; [constructor|]. inversion H; subst. constructor; [assumption|]. apply IH. assumption.
+Qed.
+
+Lemma bytes_ok_skipn : forall n l, bytes_ok l -> bytes_ok (skipn n l).
+Proof.
+  induction n as [|k IH]; intros l H; cbn [skipn]; [exact H|].
+  destruct l as [|x r]; [constructor|]. inversion H; subst. apply IH. assumption.
+Qed.
+
+Lemma bytes_ok_frev : forall l, bytes_ok l -> bytes_ok (frev l).
+Proof.
+  intros l H. unfold bytes_ok, frev. rewrite rev_append_rev, app_nil_r. apply Forall_rev. exact H.
+Qed.
+
+Lemma take_upto_bytes : forall l space acc cnt got n lft,
+  take_upto l space acc cnt = (got, n, lft) -> bytes_ok l -> bytes_ok acc ->
+  bytes_ok got /\ bytes_ok lft.
+Proof.
+  induction l as [|x r IH]; intros space acc cnt got n lft H Hl Ha; cbn [take_upto] in H.
+  - inversion H; subst. split; [apply bytes_ok_frev; exact Ha|constructor].
+  - destruct (space =? 0).
+    + inversion H; subst. split; [apply bytes_ok_frev; exact Ha|exact Hl].
+    + inversion Hl; subst. eapply IH; [exact H|assumption|]. constructor; assumption.
+Qed.
+
+Lemma src_read_bytes : forall cs t space got n err cs',
+  src_read cs t space = (got, n, err, cs') -> Forall bytes_ok cs ->
+  bytes_ok got /\ Forall bytes_ok cs'.
+Proof.
+  intros cs t space got n err cs' H Hcs. unfold src_read in H. destruct cs as [|c rest].
+  - inversion H; subst. split; constructor.
+  - destruct (take_upto c space [] 0) as [[g k] lft] eqn:E. inversion H; subst.
+    inversion Hcs; subst.
+    destruct (take_upto_bytes _ _ _ _ _ _ _ E) as (G1 & G2); [assumption|constructor|].
+    split; [exact G1|]. destruct lft; [assumption|constructor; assumption].
+Qed.
+
+Lemma fill_loop_bytes : forall i b, buf_bytes b -> buf_bytes (fill_loop i b).
+Proof.
+  induction i as [|k IH]; intros b (H1 & H2); cbn [fill_loop].
+  - split; assumption.
+  - destruct (src_read (chunks b) (term b) (bsize b - blen b)) as [[[got n] err] cs] eqn:E.
+    destruct (src_read_bytes _ _ _ _ _ _ _ E H2) as (G1 & G2).
+    assert (Hb : buf_bytes (mkBuf (bsize b) (bbuf b ++ got) (blen b + n) (berr b) cs (term b) (consumed b))).
+    { split; cbn; [apply bytes_ok_app; assumption|assumption]. }
+    destruct err; [exact Hb|]. destruct (0 <? n); [exact Hb|]. apply IH. exact Hb.
+Qed.
+
+Lemma peek_loop_bytes : forall fuel b n b', peek_loop fuel b n = Some b' -> buf_bytes b -> buf_bytes b'.
+Proof.
+  induction fuel as [|f IH]; intros b n b' H Hb; cbn [peek_loop] in H; [discriminate|].
+  destruct ((blen b <? n) && (blen b <? bsize b) && match berr b with None => true | Some _ => false end).
+  - unfold bfill in H. destruct (bsize b <=? blen b); [discriminate|].
+    eapply IH; [exact H|]. apply fill_loop_bytes. exact Hb.
+  - assert (b = b') by congruence. subst. exact Hb.
+Qed.
+
+Lemma bPeek_bytes_gen : forall b n, buf_bytes b ->
+  match bPeek b n with
+  | Some (bytes, k, e, b') => bytes_ok bytes /\ buf_bytes b'
+  | None => True
+  end.
+Proof.
+  intros b n Hb. unfold bPeek.
+  destruct (peek_loop big_fuel b n) as [b1|] eqn:E; [|exact I].
+  pose proof (peek_loop_bytes _ _ _ _ E Hb) as (P1 & P2).
+  destruct (bsize b1 <? n); [split; [exact P1|split; assumption]|].
+  destruct (blen b1 <? n); [split; [exact P1|split; assumption]|].
+  split; [apply bytes_ok_firstn; exact P1|split; assumption].
+Qed.
+
+Lemma bPeek_bytes : forall b n bytes k e b',
+  bPeek b n = Some (bytes, k, e, b') -> buf_bytes b -> bytes_ok bytes /\ buf_bytes b'.
+Proof.
+  intros b n bytes k e b' H Hb. pose proof (bPeek_bytes_gen b n Hb) as G. rewrite H in G. exact G.
+Qed.
+
+Lemma discard_loop_bytes : forall fuel b remain e b',
+  discard_loop fuel b remain = Some (e, b') -> buf_bytes b -> buf_bytes b'.
+Proof.
+  induction fuel as [|f IH]; intros b remain e b' H Hb; cbn [discard_loop] in H; [discriminate|].
+  assert (Hb1 : forall b1, (if blen b =? 0 then bfill b else Some b) = Some b1 -> buf_bytes b1).
+  { intros b1 Hx. destruct (blen b =? 0).
+    - unfold bfill in Hx. destruct (bsize b <=? blen b); [discriminate|].
+      assert (fill_loop 100 b = b1) by congruence. subst. apply fill_loop_bytes. exact Hb.
+    - assert (b = b1) by congruence. subst. exact Hb. }
+  destruct (if blen b =? 0 then bfill b else Some b) as [b1|]; [|discriminate].
+  specialize (Hb1 b1 eq_refl). destruct Hb1 as (K1 & K2).
+  assert (Hb2 : forall s, buf_bytes (mkBuf (bsize b1) (skipn s (bbuf b1)) (blen b1 - N.min (blen b1) remain) (berr b1)
+                                 (chunks b1) (term b1) (consumed b1 + N.min (blen b1) remain))).
+  { intros s. split; cbn; [apply bytes_ok_skipn; exact K1|exact K2]. }
+  destruct (remain - N.min (blen b1) remain =? 0).
+  - assert (Hx : b' = mkBuf (bsize b1) (skipn (N.to_nat (N.min (blen b1) remain)) (bbuf b1)) (blen b1 - N.min (blen b1) remain) (berr b1)
+                                 (chunks b1) (term b1) (consumed b1 + N.min (blen b1) remain)) by congruence.
+    subst b'. apply Hb2.
+  - cbn [berr] in H. destruct (berr b1).
+    + match type of H with Some (_, ?d) = _ => assert (Hx : b' = d) by congruence end.
+      subst b'. split; cbn; [apply bytes_ok_skipn; exact K1|exact K2].
+    + eapply IH; [exact H|]. split; cbn; [apply bytes_ok_skipn; exact K1|exact K2].
+Qed.
+
+Lemma bDiscard_bytes_gen : forall b n, buf_bytes b ->
+  match bDiscard b n with
+  | Some (e, b') => buf_bytes b'
+  | None => True
+  end.
+Proof.
+  intros b n Hb. unfold bDiscard. destruct (n =? 0); [exact Hb|].
+  destruct (discard_loop big_fuel b n) as [[e b']|] eqn:E; [|exact I].
+  eapply discard_loop_bytes; eassumption.
+Qed.
+
+Lemma bDiscard_bytes : forall b n e b', bDiscard b n = Some (e, b') -> buf_bytes b -> buf_bytes b'.
+Proof.
+  intros b n e b' H Hb. pose proof (bDiscard_bytes_gen b n Hb) as G. rewrite H in G. exact G.
+Qed.
